@@ -1,6 +1,7 @@
 package main
 
 import (
+	"runtime"
 	"bytes"
 	"encoding/hex"
 	"fmt"
@@ -19,11 +20,34 @@ func guard(f func()) (panicked bool, msg string) {
 	defer func() {
 		if r := recover(); r != nil {
 			panicked = true
-			msg = fmt.Sprint(r)
+			msg = fmt.Sprint(r) + " @ " + panicSite()
 		}
 	}()
 	f()
 	return
+}
+
+// panicSite: the innermost non-runtime frames of the panicking goroutine (called from the deferred
+// recover, so the panicking frames are still on the stack), for replays.
+func panicSite() string {
+	pcs := make([]uintptr, 64)
+	n := runtime.Callers(3, pcs)
+	frames := runtime.CallersFrames(pcs[:n])
+	var out []string
+	for {
+		fr, more := frames.Next()
+		fn := fr.Function
+		if fn != "" && !strings.HasPrefix(fn, "runtime.") && !strings.Contains(fn, "cmd/vrun.guard") {
+			if i := strings.LastIndex(fn, "/"); i >= 0 {
+				fn = fn[i+1:]
+			}
+			out = append(out, fmt.Sprintf("%s:%d", fn, fr.Line))
+		}
+		if !more || len(out) >= 6 {
+			break
+		}
+	}
+	return strings.Join(out, " < ")
 }
 
 func hexs(b []byte) string { return hex.EncodeToString(b) }
@@ -210,7 +234,7 @@ func codecCase(out *Out, t *Target, v *vval.Val, vs string, junk, u8, modelOK bo
 		} else if detErr != nil {
 			exp = "err"
 		}
-		out.Line("C01,C02,C04", "enc "+t.S.ID+" 0 1 "+vs, exp)
+		out.Line("C01,C02,C04,C05", "enc "+t.S.ID+" 0 1 "+vs, exp)
 		if !pSize {
 			out.Line("C04", "size "+t.S.ID+" 0 1 "+vs, fmt.Sprintf("ok %d", size))
 		}
